@@ -56,6 +56,11 @@ class GhostPrim(object):
         self.fn = fn
 
 
+ENTRY_BEAT = z3.Function("entry_beat", z3.IntSort(), z3.RealSort())
+ENTRY_VALUE = z3.Function("entry_value", z3.IntSort(), z3.RealSort())
+ENTRY_CONTENT = z3.Function("entry_content", z3.IntSort(), z3.IntSort())
+
+
 class Engine(object):
     def __init__(self, timeout_ms=10000, feas_timeout_ms=1500):
         sys.dont_write_bytecode = True
@@ -519,7 +524,7 @@ class Engine(object):
 
     def fresh_slist(self, ex, kind, name):
         """list of unknown length; elements are opaque ids (kind 'any') or ints (kind 'int')"""
-        if kind not in ("any", "int"):
+        if kind not in ("any", "int", "entry"):
             raise Unsupported("symbolic-length list of %s (%s)" % (kind, name))
         n = ex.ctx.fresh(name + ".len")
         ex.ctx.assume(n >= 0)
@@ -537,7 +542,27 @@ class Engine(object):
         e = z3.simplify(lsel(l.arr, z3.simplify(pos)))
         if e.get_id() in table:
             return table[e.get_id()]        # an element appended during this call: its structure is known
+        if l.kind == "entry":
+            # an entry the call did not write: a record [start beat, value, content] whose two numbers are functions
+            # of the element's identity (the same entry read twice gives the same numbers); the content is opaque
+            return PList([mk_real(ENTRY_BEAT(e)), mk_real(ENTRY_VALUE(e)), SInt(ENTRY_CONTENT(e))])
         return mk_int(e)
+
+    def slist_slice(self, ex, l, lo, hi):
+        """l[lo:hi] for concrete-signed symbolic bounds: a view (same element array, other offset / length)"""
+        n = l.length
+        def norm(v, dflt):
+            if v is None:
+                return dflt
+            v = v if z3.is_expr(v) else z3.IntVal(v)
+            v = z3.If(v < 0, v + n, v)
+            return z3.If(v < 0, 0, z3.If(v > n, n, v))
+        a, b = norm(zint(lo) if lo is not None else None, z3.IntVal(0)), norm(zint(hi) if hi is not None else None, n)
+        ln = z3.simplify(z3.If(b > a, b - a, 0))
+        i = z3.Int("q_sl_i")
+        arr = l.arr if z3.is_int_value(z3.simplify(a)) and z3.simplify(a).as_long() == 0 else \
+            z3.Lambda([i], z3.Select(l.arr, i + a))
+        return SList(ln, arr, l.kind)
 
     def slist_copy(self, ex, l):
         return SList(l.length, l.arr, l.kind)
@@ -553,6 +578,10 @@ class Engine(object):
             ex.note_write(l, stored=args[0])
             ident = ex.ctx.fresh("elem")
             ex.ctx.__dict__.setdefault("slist_table", {})[ident.get_id()] = args[0]
+            if l.kind == "entry" and isinstance(args[0], PList) and len(args[0].items) == 3 and \
+                    all(isinstance(x, (int, float, SInt, SReal)) and not isinstance(x, bool) for x in args[0].items[:2]):
+                ex.ctx.assume(ENTRY_BEAT(ident) == zreal(args[0].items[0]))
+                ex.ctx.assume(ENTRY_VALUE(ident) == zreal(args[0].items[1]))
             l.arr = z3.Store(l.arr, l.length, ident)
             l.length = z3.simplify(l.length + 1)
             return None
